@@ -8,6 +8,7 @@ import (
 	"sync/atomic"
 
 	"github.com/avfs/avfs"
+	"github.com/avfs/avfs/idm/memidm"
 	"github.com/avfs/avfs/vfs/memfs"
 
 	"verif/internal/fsx"
@@ -394,6 +395,15 @@ func init() {
 					osType = avfs.OsWindows
 				}
 				v := memfs.NewWithOptions(&memfs.Options{OSType: osType})
+				if c.Shard%2 == 1 {
+					// the lexical functions follow the OS type asked of the constructor, also when the identity manager
+					// handed to it is of the other type (odd shards run everything on such an instance)
+					other := avfs.OsWindows
+					if osType == avfs.OsWindows {
+						other = avfs.OsLinux
+					}
+					v = memfs.NewWithOptions(&memfs.Options{OSType: osType, Idm: memidm.NewWithOptions(&memidm.Options{OSType: other})})
+				}
 				if v.OSType() != osType || string(v.PathSeparator()) != ref.sep {
 					c.Disagree(ref.name+"|construction", fmt.Sprintf("a MemFS created with OSType %s reports %s and separator %q", ref.name, v.OSType(), string(v.PathSeparator())), nil)
 					continue
